@@ -63,7 +63,10 @@ CHECKS = {
              "(index-bijection from List.Perm + max_relabel); per-task theorems in Props/C08_<Task>.lean; oracle: "
              "shift by lattice offsets, shuffles, random injective relabelings on the real evaluate().",
         note="Scores that depend on WHICH maximum matching is returned (average overlap ratio) are not claimed "
-             "permutation invariant, as in the statement (precision/recall/F only).",
+             "permutation invariant, as in the statement (precision/recall/F only). Segment labelling scores: the relabelling "
+             "theorems hold at the level of label STRINGS (Props/C08_Segment.lean *_rename_labels: a renaming that is "
+             "injective modulo the code's case folding and does not touch the fill value 'none' maps the frame index "
+             "sequences of util.index_labels by an injective function), for the real-number reading of the entropy scores.",
         design="§5 C08"),
     "C10": dict(
         text="Lean 4 proofs over an inductive Harte grammar and string-level models of validate/split/join/encode that use "
@@ -214,8 +217,12 @@ CHECKS = {
              "the real code for all of these (octaves exactly, other factors with margins), key pairs exhaustively.",
         note="log2 is trusted (whole octaves rely on NumPy's log2 being exact up to cancellation; checked by the oracle). "
              "Label level: encode_respell / encode_transpose are proved over C10's encode model (Props/C09_Labels.lean), so all 12 "
-             "rules are invariant under joint transposition / respelling of LABELS; lifting this to chord.evaluate's weighted "
-             "averages rests on the oracle. Known "
+             "rules are invariant under joint transposition / respelling of LABELS; chord.evaluate itself is modelled on label "
+             "strings as the code is (MirModel/ChordEvaluate.lean: the estimate is adjusted with 'N', neighbours are fused by the "
+             "REDUCED encoding while the 12 rules compare the non-reduced one; correspondence suite chord_evaluate) and "
+             "transpose_evaluate (Props/C09_Evaluate.lean) proves all 15 scores, or the exception, unchanged under joint "
+             "transposition / respelling of the labels, from a general theorem: the pipeline is invariant under token maps that "
+             "are injective on the fusing keys and preserve the comparison functions. Known "
              "findings: a frequency exactly at the 10 Hz base is treated as 'no pitch'.",
         design="§5 C09"),
     "C11": dict(
